@@ -6,7 +6,7 @@ STD = ["Go harness generators and canonicalisation", "hand-written Lean model ti
 PROPS = {
     "C01": {
         "spec_key": "c01",
-        "runs": [{"engine": "seq", "mode": "c01", "n_quick": 600, "n_thorough": 40000}],
+        "runs": [{"engine": "seq", "mode": "c01", "n_quick": 1500, "n_thorough": 1500000}],
         "rule": "histories of 5-25 (thorough: 5-60) public operations over a pool of 1-3 generated frames; "
                 "distinct = different protocol line; non-trivial = at least one successful step on a frame with >= 2 rows",
         "assumptions": ["user-supplied columns have the receiver's length (the property's own side condition)",
@@ -15,7 +15,7 @@ PROPS = {
     },
     "C02": {
         "spec_key": "c02",
-        "runs": [{"engine": "seq", "mode": "c02", "n_quick": 600, "n_thorough": 40000}],
+        "runs": [{"engine": "seq", "mode": "c02", "n_quick": 1500, "n_thorough": 1500000}],
         "rule": "derive-then-edit histories; after every step every live frame is dumped cell by cell and all frames "
                 "other than the target of an in-place edit must be unchanged; non-trivial = at least one successful step on a frame with >= 2 rows",
         "assumptions": ["Select (documented to return the live column) and callbacks returning their argument are excluded, as in the property"],
@@ -23,7 +23,8 @@ PROPS = {
     },
     "C20": {
         "spec_key": "c20",
-        "runs": [{"engine": "seq", "mode": "c20", "n_quick": 600, "n_thorough": 40000}],
+        "runs": [{"engine": "seq", "mode": "c20", "n_quick": 1500, "n_thorough": 1500000},
+                 {"engine": "plot", "mode": "", "n_quick": 150, "n_thorough": 3000, "timeout": 600}],
         "rule": "histories biased to invalid arguments (unknown names, boundary and extreme integers, unknown option strings, "
                 "mismatched operands, wrong cell types); every call under recover(); non-trivial = at least one successful step on a frame with >= 2 rows",
         "assumptions": ["scalar cells only; callbacks that themselves misbehave are outside the property"],
